@@ -22,6 +22,7 @@ import (
 	"go/token"
 	"os"
 	"path/filepath"
+	"sort"
 	"strings"
 )
 
@@ -48,6 +49,25 @@ type tr struct {
 	cur    *fnSig
 	fresh  int
 	consts map[string]constant.Value // package-level integer constants
+	loop   *loopCtx                  // set while translating the body of a `for { }`
+	aux    []string                  // auxiliary definitions (loops) to emit before the current function
+	fname  string
+	nloops int
+}
+
+// loopCtx: a `for { … }` becomes a fuel-indexed recursive definition over the variables assigned in its body;
+// it returns `Sum.inl v` for a `return v` inside the loop and `Sum.inr state` for a `break`.
+type loopCtx struct {
+	name  string
+	args  string   // the captured (read-only) variables, as an argument string
+	state []string // variables assigned in the body
+}
+
+func (l *loopCtx) tuple() string {
+	if len(l.state) == 1 {
+		return l.state[0]
+	}
+	return "(" + strings.Join(l.state, ", ") + ")"
 }
 
 // constVal evaluates an integer constant expression over literals and package-level constants.
@@ -119,6 +139,8 @@ func goType(e ast.Expr) ty {
 			return tNat
 		case "int", "int64":
 			return tInt
+		case "string":
+			return tBytes // a Go string is its bytes here (only len, conversion and append are used on it)
 		}
 	case *ast.ArrayType:
 		if t.Len == nil {
@@ -163,6 +185,9 @@ func (t *tr) typeOf(e ast.Expr, en env, want ty) ty {
 	}
 	switch x := e.(type) {
 	case *ast.BasicLit:
+		if x.Kind == token.STRING {
+			return tBytes
+		}
 		if want == tUnknown {
 			return tInt
 		}
@@ -193,7 +218,7 @@ func (t *tr) typeOf(e ast.Expr, en env, want ty) ty {
 			if id.Name == "len" {
 				return tInt
 			}
-			if id.Name == "append" {
+			if id.Name == "append" || id.Name == "make" {
 				return tBytes
 			}
 			if g := goType(id); g != tUnknown {
@@ -205,6 +230,9 @@ func (t *tr) typeOf(e ast.Expr, en env, want ty) ty {
 		}
 		if sel, ok := x.Fun.(*ast.SelectorExpr); ok && (sel.Sel.Name == "Uint32" || sel.Sel.Name == "Uint64") {
 			return tNat
+		}
+		if goType(x.Fun) == tBytes {
+			return tBytes // []byte(s)
 		}
 		die(t.fset, e, "call in expression")
 	case *ast.IndexExpr:
@@ -233,6 +261,12 @@ func (t *tr) expr(e ast.Expr, en env, want ty, k func(string) string) string {
 	}
 	switch x := e.(type) {
 	case *ast.BasicLit:
+		if x.Kind == token.STRING {
+			if x.Value != `""` {
+				die(t.fset, e, "non-empty string literal")
+			}
+			return k("([] : Bytes)")
+		}
 		if x.Kind != token.INT {
 			die(t.fset, e, "non-integer literal")
 		}
@@ -274,6 +308,13 @@ func (t *tr) expr(e ast.Expr, en env, want ty, k func(string) string) string {
 					return k("(Go.shl64 " + a + " " + b + ")")
 				})
 			})
+		case token.REM:
+			if lt != tInt {
+				die(t.fset, e, "unsigned remainder")
+			}
+			return t.expr(x.X, en, lt, func(a string) string {
+				return t.expr(x.Y, en, lt, func(b string) string { return k("(Go.irem " + a + " " + b + ")") })
+			})
 		case token.AND, token.OR, token.ADD, token.SUB:
 			return t.expr(x.X, en, lt, func(a string) string {
 				return t.expr(x.Y, en, lt, func(b string) string {
@@ -312,6 +353,12 @@ func (t *tr) expr(e ast.Expr, en env, want ty, k func(string) string) string {
 				return t.expr(x.Low, en, tInt, func(lo string) string {
 					return "(Go.sliceFrom " + b + " " + lo + ").bind fun " + v + " =>\n" + k(v)
 				})
+			case x.Low != nil && x.High != nil:
+				return t.expr(x.Low, en, tInt, func(lo string) string {
+					return t.expr(x.High, en, tInt, func(hi string) string {
+						return "(Go.slice " + b + " " + lo + " " + hi + ").bind fun " + v + " =>\n" + k(v)
+					})
+				})
 			case x.Low == nil && x.High != nil:
 				ht := t.typeOf(x.High, en, tInt)
 				return t.expr(x.High, en, ht, func(hi string) string {
@@ -329,6 +376,14 @@ func (t *tr) expr(e ast.Expr, en env, want ty, k func(string) string) string {
 			switch {
 			case id.Name == "len":
 				return t.expr(x.Args[0], en, tBytes, func(b string) string { return k("(Go.len " + b + ")") })
+			case id.Name == "make":
+				if len(x.Args) != 2 || goType(x.Args[0]) != tBytes {
+					die(t.fset, e, "make form")
+				}
+				return t.expr(x.Args[1], en, tInt, func(n string) string {
+					v := t.tmp()
+					return "(Go.makeBytes " + n + ").bind fun " + v + " =>\n" + k(v)
+				})
 			case id.Name == "append":
 				return t.expr(x.Args[0], en, tBytes, func(b string) string {
 					if x.Ellipsis.IsValid() {
@@ -372,6 +427,9 @@ func (t *tr) expr(e ast.Expr, en env, want ty, k func(string) string) string {
 				}
 				return t.call(id.Name, x.Args, en, func(vs []string) string { return k(vs[0]) })
 			}
+		}
+		if goType(x.Fun) == tBytes && len(x.Args) == 1 {
+			return t.expr(x.Args[0], en, tBytes, k) // []byte(s): the same bytes
 		}
 		if sel, ok := x.Fun.(*ast.SelectorExpr); ok {
 			if sel.Sel.Name == "Uint32" || sel.Sel.Name == "Uint64" {
@@ -509,12 +567,109 @@ func (t *tr) wrapRes(i int, v string, isNil bool) string {
 // stmts translates a statement list; what follows an `if`/`switch` whose arms all return is its `else`.
 func (t *tr) stmts(list []ast.Stmt, en env) string {
 	if len(list) == 0 {
+		if t.loop != nil {
+			// end of the loop body: next iteration
+			return t.loop.name + t.loop.args + " fuel " + strings.Join(parenAll(t.loop.state), " ")
+		}
 		return ".err -- fell off the end of a block"
 	}
 	st, rest := list[0], list[1:]
 	switch s := st.(type) {
 	case *ast.ReturnStmt:
+		if t.loop != nil {
+			if len(s.Results) != 1 {
+				die(t.fset, st, "return inside a loop")
+			}
+			return t.expr(s.Results[0], en, t.cur.results[0], func(v string) string { return ".ok (Sum.inl " + v + ")" })
+		}
 		return t.ret(s, en)
+	case *ast.BranchStmt:
+		if s.Tok != token.BREAK || t.loop == nil || s.Label != nil {
+			die(t.fset, st, "branch statement")
+		}
+		return ".ok (Sum.inr " + t.loop.tuple() + ")"
+	case *ast.IncDecStmt:
+		n := s.X.(*ast.Ident).Name
+		if en[n] != tInt {
+			die(t.fset, st, "++/-- on a non-int")
+		}
+		op := " + "
+		if s.Tok == token.DEC {
+			op = " - "
+		}
+		return "let " + n + " := (" + n + op + "(1 : Int))\n" + t.stmts(rest, en)
+	case *ast.ForStmt:
+		if s.Init != nil || s.Cond != nil || s.Post != nil || t.loop != nil {
+			die(t.fset, st, "for statement other than a top-level `for { }`")
+		}
+		if len(t.cur.results) != 1 {
+			die(t.fset, st, "loop in a function with several results")
+		}
+		// state: the variables assigned in the body (they must exist already)
+		var state []string
+		seen := map[string]bool{}
+		ast.Inspect(s.Body, func(n ast.Node) bool {
+			var id *ast.Ident
+			switch a := n.(type) {
+			case *ast.IncDecStmt:
+				id, _ = a.X.(*ast.Ident)
+			case *ast.AssignStmt:
+				if a.Tok == token.DEFINE {
+					die(t.fset, a, "definition inside a loop")
+				}
+				id, _ = a.Lhs[0].(*ast.Ident)
+			}
+			if id != nil && !seen[id.Name] {
+				if _, ok := en[id.Name]; !ok {
+					die(t.fset, n, "loop assigns an unknown variable")
+				}
+				seen[id.Name] = true
+				state = append(state, id.Name)
+			}
+			return true
+		})
+		// captured variables, in a fixed order: parameters first, then other locals by name
+		var capt []string
+		for _, p := range t.cur.params {
+			if !seen[p] {
+				capt = append(capt, p)
+			}
+		}
+		var locals []string
+		for n := range en {
+			if !seen[n] && !contains(t.cur.params, n) {
+				locals = append(locals, n)
+			}
+		}
+		sort.Strings(locals)
+		capt = append(capt, locals...)
+		t.nloops++
+		lc := &loopCtx{name: fmt.Sprintf("%s_loop%d", t.fname, t.nloops), state: state}
+		var binders, stTys, fuelTerms []string
+		for _, c := range capt {
+			lc.args += " " + c
+			binders = append(binders, "("+c+" : "+leanTy(en[c], false)+")")
+			if en[c] == tBytes {
+				fuelTerms = append(fuelTerms, c+".length")
+			}
+		}
+		for _, v := range state {
+			stTys = append(stTys, leanTy(en[v], false))
+		}
+		t.loop = lc
+		body := t.stmts(s.Body.List, en.copy())
+		t.loop = nil
+		body = "    " + strings.ReplaceAll(body, "\n", "\n    ")
+		retTy := leanTy(t.cur.results[0], t.cur.optRes[0])
+		def := fmt.Sprintf("def %s %s : Nat → %s → Res (%s ⊕ %s)\n  | 0, %s => .err -- out of fuel\n  | fuel + 1, %s =>\n%s\n",
+			lc.name, strings.Join(binders, " "), strings.Join(stTys, " → "), retTy, strings.Join(stTys, " × "),
+			strings.Join(underscores(len(state)), ", "), strings.Join(state, ", "), body)
+		t.aux = append(t.aux, def)
+		// enough fuel for one step per byte of every captured byte string, plus slack
+		fuel := "(" + strings.Join(append(fuelTerms, "2"), " + ") + ")"
+		r := t.tmp()
+		return "(" + lc.name + lc.args + " " + fuel + " " + strings.Join(parenAll(state), " ") + ").bind fun " + r + " =>\nmatch " + r + " with\n| Sum.inl v => .ok v\n| Sum.inr " +
+			lc.tuple() + " =>\n" + t.stmts(rest, en)
 	case *ast.ExprStmt:
 		if c, ok := s.X.(*ast.CallExpr); ok {
 			if id, ok := c.Fun.(*ast.Ident); ok && id.Name == "panic" {
@@ -620,6 +775,31 @@ func (t *tr) stmts(list []ast.Stmt, en env) string {
 	return ""
 }
 
+func parenAll(xs []string) []string {
+	var o []string
+	for _, x := range xs {
+		o = append(o, "("+x+")")
+	}
+	return o
+}
+
+func underscores(n int) []string {
+	var o []string
+	for i := 0; i < n; i++ {
+		o = append(o, "_")
+	}
+	return o
+}
+
+func contains(xs []string, x string) bool {
+	for _, y := range xs {
+		if x == y {
+			return true
+		}
+	}
+	return false
+}
+
 func (e env) copy() env {
 	c := env{}
 	for k, v := range e {
@@ -629,11 +809,20 @@ func (e env) copy() env {
 }
 
 func main() {
-	if len(os.Args) != 2 {
-		fmt.Fprintln(os.Stderr, "usage: quicwire <repo root>")
+	if len(os.Args) != 2 && len(os.Args) != 5 {
+		fmt.Fprintln(os.Stderr, "usage: quicwire <repo root> [<file relative to the root> <Lean namespace suffix> <func,func,…>]")
 		os.Exit(2)
 	}
-	path := filepath.Join(os.Args[1], "quicwire", "wire.go")
+	rel, nsName := "quicwire/wire.go", "Quicwire"
+	only, found := map[string]bool{}, map[string]bool{}
+	selecting := len(os.Args) == 5
+	if len(os.Args) == 5 {
+		rel, nsName = os.Args[2], os.Args[3]
+		for _, f := range strings.Split(os.Args[4], ",") {
+			only[f] = true
+		}
+	}
+	path := filepath.Join(os.Args[1], filepath.FromSlash(rel))
 	src, err := os.ReadFile(path)
 	if err != nil {
 		fmt.Fprintln(os.Stderr, err)
@@ -672,6 +861,10 @@ func main() {
 		if !ok {
 			continue
 		}
+		if selecting && !only[fd.Name.Name] {
+			continue
+		}
+		found[fd.Name.Name] = true
 		if fd.Recv != nil {
 			die(fset, fd, "method")
 		}
@@ -719,14 +912,30 @@ func main() {
 		t.sigs[fd.Name.Name] = s
 		fns = append(fns, fd)
 	}
+	for f := range only {
+		if !found[f] {
+			fmt.Fprintf(os.Stderr, "quicwire translator: %s: function %s not found\n", rel, f)
+			os.Exit(1)
+		}
+	}
 	var out strings.Builder
-	fmt.Fprintf(&out, "import PatVerif.Model.GoSem\n/-! GENERATED by /verif/extract/cmd/quicwire from quicwire/wire.go — do not edit.\n")
-	fmt.Fprintf(&out, "source sha256: %x -/\n", sha256.Sum256(src))
-	fmt.Fprintf(&out, "namespace PatVerif.Generated.Quicwire\nopen PatVerif\n\n")
+	fmt.Fprintf(&out, "import PatVerif.Model.GoSem\n/-! GENERATED by /verif/extract/cmd/quicwire from %s — do not edit.\n", rel)
+	if len(os.Args) == 2 {
+		fmt.Fprintf(&out, "source sha256: %x -/\n", sha256.Sum256(src))
+	} else {
+		// only the translated functions count: the rest of the file may change freely
+		h := sha256.New()
+		for _, fd := range fns {
+			h.Write(src[fset.Position(fd.Pos()).Offset:fset.Position(fd.End()).Offset])
+		}
+		fmt.Fprintf(&out, "sha256 of the translated functions' source text: %x -/\n", h.Sum(nil))
+	}
+	fmt.Fprintf(&out, "namespace PatVerif.Generated.%s\nopen PatVerif\n\n", nsName)
 	for _, fd := range fns {
 		s := t.sigs[fd.Name.Name]
 		t.cur = s
 		t.fresh = 0
+		t.fname, t.nloops, t.aux = fd.Name.Name, 0, nil
 		en := env{}
 		var ps []string
 		for i, p := range s.params {
@@ -748,8 +957,11 @@ func main() {
 				pre += "let " + n + " : " + leanTy(s.results[i], false) + " := 0\n"
 			}
 		}
+		for _, a := range t.aux {
+			fmt.Fprintf(&out, "%s\n", a)
+		}
 		fmt.Fprintf(&out, "def %s %s : Res (%s) :=\n%s%s\n\n", fd.Name.Name, strings.Join(ps, " "), strings.Join(rs, " × "), pre, body)
 	}
-	fmt.Fprintf(&out, "end PatVerif.Generated.Quicwire\n")
+	fmt.Fprintf(&out, "end PatVerif.Generated.%s\n", nsName)
 	fmt.Print(out.String())
 }
